@@ -33,6 +33,12 @@ def FileEntryOf (c : Core) (e : String × Option Nat) : Prop :=
     (c.2.2.2.1 = .volatile ∨ c.2.2.2.1 = .built ∨ c.2.2.2.1 = .outdated) ∧
     (e.2 = none ↔ c.2.2.2.1 = .volatile) ∧ (∀ h, e.2 = some h → c.2.2.2.2 = some h)
 
+/-- Paths that deleting the row with cleanup columns `c` must put into the queue: the path of the
+file itself when the row has a usable record (`FileEntryOf`), and the key of its parent directory. -/
+def MustQueue (c : Core) (p : String) : Prop :=
+  (∃ e, FileEntryOf c e ∧ e.1 = p) ∨
+  (c.1.kind = .file ∧ ¬ (parentDir c.1.label = "" ∨ parentDir c.1.label = ".") ∧ p = parentDir c.1.label ++ "/")
+
 theorem mem_queueDelete (s : KState) (p : String) (h : Option Nat) (e : String × Option Nat)
     (he : e ∈ (s.queueDelete p h).toBeDeleted) : e ∈ s.toBeDeleted ∨ e = (p, h) := by
   unfold KState.queueDelete at he
@@ -73,6 +79,12 @@ theorem markDir_keeps_paths (s : KState) (d : String) (e : String × Option Nat)
   · exact ⟨e, he, rfl⟩
   · exact queueDelete_keeps_paths _ _ _ _ he
 
+theorem markDir_self (s : KState) (d : String) (h : ¬ (d = "" ∨ d = ".")) :
+    (d ++ "/", none) ∈ (s.markDirToBeDeleted d).toBeDeleted := by
+  unfold KState.markDirToBeDeleted
+  rw [if_neg h]
+  exact mem_queueDelete_self _ _ _
+
 @[simp] theorem markDir_nodes (s : KState) (d : String) : (s.markDirToBeDeleted d).nodes = s.nodes := by
   unfold KState.markDirToBeDeleted; split <;> rfl
 @[simp] theorem markDir_deps (s : KState) (d : String) : (s.markDirToBeDeleted d).deps = s.deps := by
@@ -90,18 +102,24 @@ theorem beforeDelete_spec (s s' : KState) (n : Node) (h : s.beforeDelete n = .ok
     s'.nodes = s.nodes ∧ s'.deps = s.deps ∧
       (∀ e ∈ s'.toBeDeleted, e ∈ s.toBeDeleted ∨ IsDirEntry e ∨ FileEntryOf n.core e) ∧
       (∀ e ∈ s.toBeDeleted, ∃ e' ∈ s'.toBeDeleted, e'.1 = e.1) ∧
-      (∀ e, FileEntryOf n.core e → ∃ e' ∈ s'.toBeDeleted, e'.1 = e.1) := by
+      (∀ p, MustQueue n.core p → ∃ e' ∈ s'.toBeDeleted, e'.1 = p) := by
   unfold KState.beforeDelete at h
   cases hk : n.key.kind with
   | root => simp [hk] at h
   | st =>
     simp [hk, pure, Except.pure] at h; subst h
     exact ⟨rfl, rfl, fun e he => Or.inl he, fun e he => ⟨e, he, rfl⟩,
-      fun e he => absurd he.1 (by simp [hk])⟩
+      fun p hp => by
+        rcases hp with ⟨e, he, _⟩ | ⟨hkf, _, _⟩
+        · exact absurd he.1 (by simp [hk])
+        · exact absurd hkf (by simp [hk])⟩
   | step =>
     simp only [hk, pure, Except.pure, Except.ok.injEq] at h; subst h
     refine ⟨by simp, by simp, fun e he => ?_, fun e he => markDir_keeps_paths _ _ _ he,
-      fun e he => absurd he.1 (by simp [hk])⟩
+      fun p hp => by
+        rcases hp with ⟨e, he, _⟩ | ⟨hkf, _, _⟩
+        · exact absurd he.1 (by simp [hk])
+        · exact absurd hkf (by simp [hk])⟩
     rcases mem_markDir _ _ _ he with h1 | h2
     · exact Or.inl h1
     · exact Or.inr (Or.inl h2)
@@ -114,13 +132,15 @@ theorem beforeDelete_spec (s s' : KState) (n : Node) (h : s.beforeDelete n = .ok
         (∀ e ∈ (s.markDirToBeDeleted (parentDir n.key.label)).toBeDeleted,
           e ∈ s.toBeDeleted ∨ IsDirEntry e ∨ FileEntryOf n.core e) ∧
         (∀ e ∈ s.toBeDeleted, ∃ e' ∈ (s.markDirToBeDeleted (parentDir n.key.label)).toBeDeleted, e'.1 = e.1) ∧
-        (∀ e, FileEntryOf n.core e → ∃ e' ∈ (s.markDirToBeDeleted (parentDir n.key.label)).toBeDeleted, e'.1 = e.1) := by
+        (∀ p, MustQueue n.core p → ∃ e' ∈ (s.markDirToBeDeleted (parentDir n.key.label)).toBeDeleted, e'.1 = p) := by
       intro hno
-      refine ⟨by simp, by simp, fun e he => ?_, fun e he => markDir_keeps_paths _ _ _ he,
-        fun e he => absurd ⟨e, he⟩ hno⟩
-      rcases mem_markDir _ _ _ he with h1 | h2
-      · exact Or.inl h1
-      · exact Or.inr (Or.inl h2)
+      refine ⟨by simp, by simp, fun e he => ?_, fun e he => markDir_keeps_paths _ _ _ he, fun p hp => ?_⟩
+      · rcases mem_markDir _ _ _ he with h1 | h2
+        · exact Or.inl h1
+        · exact Or.inr (Or.inl h2)
+      · rcases hp with ⟨e, he, _⟩ | ⟨_, hnd, hp⟩
+        · exact absurd ⟨e, he⟩ hno
+        · exact ⟨_, markDir_self s _ hnd, hp.symm⟩
     -- the branches that queue the file with record `r`
     have queued : ∀ (r : Option Nat) (_ : FileEntryOf n.core (n.key.label, r)),
         ((s.queueDelete n.key.label r).markDirToBeDeleted (parentDir n.key.label)).nodes = s.nodes ∧
@@ -128,9 +148,9 @@ theorem beforeDelete_spec (s s' : KState) (n : Node) (h : s.beforeDelete n = .ok
         (∀ e ∈ ((s.queueDelete n.key.label r).markDirToBeDeleted (parentDir n.key.label)).toBeDeleted,
           e ∈ s.toBeDeleted ∨ IsDirEntry e ∨ FileEntryOf n.core e) ∧
         (∀ e ∈ s.toBeDeleted, ∃ e' ∈ ((s.queueDelete n.key.label r).markDirToBeDeleted (parentDir n.key.label)).toBeDeleted, e'.1 = e.1) ∧
-        (∀ e, FileEntryOf n.core e → ∃ e' ∈ ((s.queueDelete n.key.label r).markDirToBeDeleted (parentDir n.key.label)).toBeDeleted, e'.1 = e.1) := by
+        (∀ p, MustQueue n.core p → ∃ e' ∈ ((s.queueDelete n.key.label r).markDirToBeDeleted (parentDir n.key.label)).toBeDeleted, e'.1 = p) := by
       intro r hr
-      refine ⟨by simp, by simp, fun e he => ?_, fun e he => ?_, fun e he => ?_⟩
+      refine ⟨by simp, by simp, fun e he => ?_, fun e he => ?_, fun p hp => ?_⟩
       · rcases mem_markDir _ _ _ he with h1 | h2
         · rcases mem_queueDelete _ _ _ _ h1 with h3 | h4
           · exact Or.inl h3
@@ -139,8 +159,10 @@ theorem beforeDelete_spec (s s' : KState) (n : Node) (h : s.beforeDelete n = .ok
       · obtain ⟨e1, he1, h1⟩ := queueDelete_keeps_paths s n.key.label r e he
         obtain ⟨e2, he2, h2⟩ := markDir_keeps_paths _ (parentDir n.key.label) e1 he1
         exact ⟨e2, he2, h2.trans h1⟩
-      · obtain ⟨e2, he2, h2⟩ := queue_then_mark s n.key.label (parentDir n.key.label) r
-        exact ⟨e2, he2, h2.trans he.2.1.symm⟩
+      · rcases hp with ⟨e, he, hep⟩ | ⟨_, hnd, hp⟩
+        · obtain ⟨e2, he2, h2⟩ := queue_then_mark s n.key.label (parentDir n.key.label) r
+          exact ⟨e2, he2, h2.trans (he.2.1.symm.trans hep)⟩
+        · exact ⟨_, markDir_self _ _ hnd, hp.symm⟩
     cases hst : n.fstate with
     | volatile =>
       exact queued none ⟨hk, rfl, Or.inl hst, by simp [hst], by simp⟩
@@ -274,7 +296,7 @@ theorem passBody_spec (n : Node) (b : KState × List Key) (r : ForInStep (KState
       st'.deps = b.1.deps.filter (fun d => !decide (d.snk = n.key)) ∧
       (∀ e ∈ st'.toBeDeleted, e ∈ b.1.toBeDeleted ∨ IsDirEntry e ∨ FileEntryOf n.core e) ∧
       (∀ e ∈ b.1.toBeDeleted, ∃ e' ∈ st'.toBeDeleted, e'.1 = e.1) ∧
-      (∀ e, FileEntryOf n.core e → ∃ e' ∈ st'.toBeDeleted, e'.1 = e.1) ∧
+      (∀ p, MustQueue n.core p → ∃ e' ∈ st'.toBeDeleted, e'.1 = p) ∧
       (∀ x, x ∈ cs' ↔ (x ∈ b.2 ∧ x ≠ n.key) ∨ n.creator = some x) := by
   unfold passBody at h
   simp only at h
@@ -325,7 +347,7 @@ structure PassSpec (s s' : KState) (pre : List Node) (cs : List Key) : Prop wher
   deps : s'.deps = s.deps.filter (fun d => pre.all (fun a => d.snk ≠ a.key))
   queue : ∀ e ∈ s'.toBeDeleted, e ∈ s.toBeDeleted ∨ IsDirEntry e ∨ ∃ a ∈ pre, FileEntryOf a.core e
   keep : ∀ e ∈ s.toBeDeleted, ∃ e' ∈ s'.toBeDeleted, e'.1 = e.1
-  complete : ∀ a ∈ pre, ∀ e, FileEntryOf a.core e → ∃ e' ∈ s'.toBeDeleted, e'.1 = e.1
+  complete : ∀ a ∈ pre, ∀ p, MustQueue a.core p → ∃ e' ∈ s'.toBeDeleted, e'.1 = p
   creators_sound : ∀ x ∈ cs, ∃ a ∈ pre, a.creator = some x
   creators_complete : ∀ a ∈ pre, ∀ x, a.creator = some x → (∀ a' ∈ pre, a'.key ≠ x) → x ∈ cs
 
@@ -517,7 +539,7 @@ structure BaseInv (s0 st : KState) (cs D : List Key) : Prop where
   queue : ∀ e ∈ st.toBeDeleted, e ∈ s0.toBeDeleted ∨ IsDirEntry e ∨
     ∃ c ∈ s0.cores, c.1 ∈ D ∧ c.2.2.1 = true ∧ FileEntryOf c e
   keep : ∀ e ∈ s0.toBeDeleted, ∃ e' ∈ st.toBeDeleted, e'.1 = e.1
-  complete : KeysNodup s0 → ∀ c ∈ s0.cores, c.1 ∈ D → ∀ e, FileEntryOf c e → ∃ e' ∈ st.toBeDeleted, e'.1 = e.1
+  complete : KeysNodup s0 → ∀ c ∈ s0.cores, c.1 ∈ D → ∀ p, MustQueue c p → ∃ e' ∈ st.toBeDeleted, e'.1 = p
   creators : KeysNodup s0 → ∀ c ∈ s0.cores, c.1 ∈ D → ∀ x, c.2.1 = some x → st.hasKey x → x ∈ cs
   deletable : KeysNodup s0 → ∀ k ∈ D, Deletable s0 k
 
@@ -850,7 +872,7 @@ structure BaseSpec (s s' : KState) (D : List Key) : Prop where
   queue : ∀ e ∈ s'.toBeDeleted, e ∈ s.toBeDeleted ∨ IsDirEntry e ∨
     ∃ c ∈ s.cores, c.1 ∈ D ∧ c.2.2.1 = true ∧ FileEntryOf c e
   keep : ∀ e ∈ s.toBeDeleted, ∃ e' ∈ s'.toBeDeleted, e'.1 = e.1
-  complete : KeysNodup s → ∀ c ∈ s.cores, c.1 ∈ D → ∀ e, FileEntryOf c e → ∃ e' ∈ s'.toBeDeleted, e'.1 = e.1
+  complete : KeysNodup s → ∀ c ∈ s.cores, c.1 ∈ D → ∀ p, MustQueue c p → ∃ e' ∈ s'.toBeDeleted, e'.1 = p
   noLeaf : NoLeaf s'
   lost : KeysNodup s → ∀ c ∈ s.cores, c.1 ∈ D → ∀ x, c.2.1 = some x → x.kind = .step →
     ∀ n ∈ s'.nodes, n.key = x → n.shash = none
